@@ -103,9 +103,11 @@ def compare_outcome(model, rust):
             diffs.append(("error", "model errors %s" % errs[:3], "code error %s" % rust.get("error", "")[:200]))
     return diffs
 
-def compare_reports(m, r, what=("legs", "cost", "gain", "proceeds", "holdings", "totals", "years")):
-    """m, r canonical.  Returns list of (observable, model-side, code-side)."""
+def compare_reports(m, r, what=("legs", "cost", "gain", "proceeds", "holdings", "totals", "years"), exact_qty=False):
+    """m, r canonical.  Returns list of (observable, model-side, code-side).  exact_qty: share counts must be equal, not near
+    (used when every share-count operation of the ledger is exact in 28-digit decimals, see classes.residue_site)."""
     diffs = []
+    nearq = (lambda a, b: a == b) if exact_qty else near
     my = [y["year"] for y in m["years"]]; ry = [y["year"] for y in r["years"]]
     if my != ry:
         diffs.append(("years", my, ry)); return diffs
@@ -120,8 +122,8 @@ def compare_reports(m, r, what=("legs", "cost", "gain", "proceeds", "holdings", 
                 if sm != sr:
                     diffs.append(("legs", (tag, sm), sr)); continue
                 for lm, lr in zip(dm["legs"], dr["legs"]):
-                    if not near(lm["qty"], lr["qty"]): diffs.append(("legs", (tag, lm["rule"], "qty", str(lm["qty"])), str(lr["qty"])))
-                if not near(dm["qty"], dr["qty"]): diffs.append(("legs", (tag, "disposal qty", str(dm["qty"])), str(dr["qty"])))
+                    if not nearq(lm["qty"], lr["qty"]): diffs.append(("legs", (tag, lm["rule"], "qty", str(lm["qty"])), str(lr["qty"])))
+                if not nearq(dm["qty"], dr["qty"]): diffs.append(("legs", (tag, "disposal qty", str(dm["qty"])), str(dr["qty"])))
             else:
                 if len(dm["legs"]) != len(dr["legs"]): continue
             for lm, lr in zip(dm["legs"], dr["legs"]):
@@ -139,6 +141,6 @@ def compare_reports(m, r, what=("legs", "cost", "gain", "proceeds", "holdings", 
         if hm != hr: diffs.append(("holdings", hm, hr))
         else:
             for a, b in zip(m["holdings"], r["holdings"]):
-                if not near(a["qty"], b["qty"]): diffs.append(("holdings", (a["tick"], "qty", str(a["qty"])), str(b["qty"])))
+                if not nearq(a["qty"], b["qty"]): diffs.append(("holdings", (a["tick"], "qty", str(a["qty"])), str(b["qty"])))
                 if "cost" in what and not near(a["cost"], b["cost"]): diffs.append(("holdings", (a["tick"], "cost", float(a["cost"])), float(b["cost"])))
     return diffs
